@@ -102,6 +102,14 @@ CHECKS = {
              "PKTIDX, same backend twice vs fresh backend, copies/pickles of frames from five construction routes mutated on either side, "
              "seed sameness/difference sampling, and an AST scan that every generator is created from a seed argument.",
         design="3/C12", technique="Coq heap model (history independence, copy isolation) + cross-process digest comparison"),
+    "C05": dict(
+        text="Theorems over exact rationals for every geometry: the frequency axis in memory is fmin + j*df and strictly increasing for both "
+             "orientations, fch1 is fmin (ascending) / fmax = fs[F-1] (descending), ts[i] = i*dt, index->frequency->index is the identity, "
+             "frequency->index is within half a channel, frames describing one band with opposite orientation flags have equal axes, and "
+             "the drift-rate helper follows from the grid. PARTIAL for doubles: the binary64 kernels (numpy's linspace / round in numpy's "
+             "order) are compared bit for bit with frames from every construction route, and the round trip / nearest-channel / "
+             "monotonicity claims are checked on every channel of every generated frame -- sampling of geometries, not a proof for all doubles.",
+        design="3/C05", technique="Coq proof over Q (field/lra, round-half-even lemmas) + PrimFloat bit-exact twins of linspace/get_index"),
 }
 
 PENDING_REASON = "check not built yet in this session (planned in DESIGN.md section 3); no claim is made for it in this commit"
